@@ -73,7 +73,11 @@ type h8State struct {
 
 var h8Inputs = map[string][]string{
 	"valid":   {"SELECT a, b FROM t WHERE a = 1", "INSERT INTO t (a) VALUES (1)", "SELECT a -- c1\nFROM t /* c2 */ WHERE b = 2", "WITH c AS (SELECT 1) SELECT * FROM c", "SELECT\t1,\t2\t/* tabs */\tFROM\tt", "\t\t\tSELECT a\n\t\t\tFROM t", "SELECT 1", "\t\tSELECT 1"},
-	"invalid": {"SELECT - FROM t", "INSERT INTO t VALUES (1, -)", "SELECT -(a + ) FROM t", "SELECT +(1", "SELECT a,\n  b\nFROM t\nWHERE ]", "SELECT FROM", "INSERT INTO t VALUES (", "SELECT a FROM t WHERE a = 'unterminated", "SELECT 'bad \\q escape'", "SELECT a FROM t;;\n\nSELECT ] x"},
+	"invalid": {"SELECT - FROM t", "INSERT INTO t VALUES (1, -)", "SELECT -(a + ) FROM t", "SELECT +(1", "SELECT a,\n  b\nFROM t\nWHERE ]", "SELECT FROM", "INSERT INTO t VALUES (", "SELECT a FROM t WHERE a = 'unterminated", "SELECT 'bad \\q escape'", "SELECT a FROM t;;\n\nSELECT ] x",
+		// eighth round: a failure inside each kind of lexeme, after part of it has been read (whatever scratch state the
+		// reader keeps is non-empty at the moment of the failure)
+		"SELECT 'secret", "SELECT 'abc\\q'", "SELECT '''triple open", "SELECT \"open ident", "SELECT `open tick", "SELECT $tag$open dollar", "SELECT $$open dollar", "SELECT /* never closed", "SELECT 12e+", "SELECT 'a', 'b', 'unfinished",
+		"SELECT 'x\\u12", "SELECT N'open national", "SELECT E'open escape", "SELECT 0x", "SELECT \u2018curly open"},
 	"deep": {"SELECT " + strings.Repeat("(", 150) + "1" + strings.Repeat(")", 150), "SELECT " + strings.Repeat("f(", 120) + "1" + strings.Repeat(")", 120),
 		"SELECT " + strings.Repeat("- ", 150) + "1", "SELECT " + strings.Repeat("+ ", 130) + "a FROM t", "SELECT " + strings.Repeat("NOT ", 140) + "a", "SELECT " + strings.Repeat("CASE WHEN a THEN ", 110) + "1" + strings.Repeat(" END", 110),
 		"SELECT " + strings.Repeat("- ", 60) + " FROM t", "SELECT a FROM t WHERE " + strings.Repeat("(", 60) + "- ",
@@ -219,6 +223,13 @@ var h8Probes = []h8Probe{
 	{"tokens-comments", "SELECT a -- one\nFROM t /* two */ WHERE `q` = \"r\"", "tokens", false},
 	{"tokens-strings", "SELECT 'alice', 'b''c', 'tab\\there', $$dollar$$, \"quoted id\" FROM t WHERE x = 'y'", "tokens", false},
 	{"tokens-keywords", "SELECT zerofill, unsigned, ilike, returning FROM straight_join", "tokens", false},
+	// the context entry point reads the same lexemes through its own preamble: every lexeme kind through it as well
+	{"ctx-tokens-strings", "SELECT 'alice', 'b''c', 'tab\\there', $$dollar$$, \"quoted id\" FROM t WHERE x = 'y'", "tokens-ctx", true},
+	{"ctx-tokens-comments", "SELECT a -- one\nFROM t /* two */ WHERE `q` = \"r\"", "tokens-ctx", false},
+	{"ctx-tokens-first-string", "SELECT 'x'", "tokens-ctx", true},
+	{"tokens-first-string", "SELECT 'x'", "tokens", true},
+	{"ctx-tokens-lexemes", "SELECT '''tri''', $t$d$t$, `tick`, \"id\", 1.5e3, 0x1F, N'nat', E'esc\\n', :name, @v, $1 FROM t", "tokens-ctx", true},
+	{"tokens-lexemes", "SELECT '''tri''', $t$d$t$, `tick`, \"id\", 1.5e3, 0x1F, N'nat', E'esc\\n', :name, @v, $1 FROM t", "tokens", false},
 	{"cancel-at-poll-3", "SELECT a + 1, b * 2, c FROM t WHERE d = 4 AND e IN (5, 6, 7) OR f BETWEEN 8 AND 9 ORDER BY a, b + c", "parse-cancel-at-3", true},
 	{"cancel-profile-expressions", "SELECT a + 1, b * 2, c FROM t WHERE d = 4 AND e IN (5, 6, 7) OR f BETWEEN 8 AND 9 ORDER BY a, b + c", "parse-cancel-profile", true},
 	{"cancel-profile-statements", "SELECT a, b, c, d, e, f, g, h FROM t WHERE a = 1; SELECT i, j, k FROM u WHERE l = 2; SELECT m", "parse-cancel-profile", true},
